@@ -9,7 +9,10 @@ SFetch(w) ==
          THEN SetW(w, "fetched", workers[w].item) /\ buffer' = Append(buffer, workers[w].item)
          ELSE SetW(w, "failed", workers[w].item) /\ UNCHANGED buffer
     /\ UNCHANGED <<tasks, queue, inProg, sem, log, req, ctx, bus, cancels>>
-SimNext == \/ \E q \in Reqs : Request(q)
+\* the main loop handles a LoadEnd under the lock Load needs: in the replay Load runs when no batch is waiting
+SStoreLoad == bus = <<>> /\ StoreLoad
+SimNext == \/ SStoreLoad
+           \/ \E q \in Reqs : Request(q)
            \/ \E w \in 1..MaxW : Acquire(w)
            \/ \E w \in 1..MaxW : AcquireFail(w)
            \/ \E w \in 1..MaxW : SFetch(w)
